@@ -1,6 +1,6 @@
 """C20 -- templates: each variable uses the per-variable arguments given for that variable id."""
 from ..core import Ctx, Ob, PropSpec
-from ..rules import r13
+from ..rules import names, r13
 
 T = "cirkit.templates."
 
@@ -10,6 +10,7 @@ def run(ctx: Ctx) -> list[Ob]:
     obs += r13.r13a(ctx, [T + "pgms.hmm"], require=2)
     obs += r13.r13a(ctx, [T + "pgms.fully_factorized"], require=1)
     obs += r13.r13a(ctx, [T + "tensor_factorizations.cp", T + "tensor_factorizations.tucker", T + "tensor_factorizations.tensor_train"], require=4)
+    obs += names.name_table(ctx, "name_to_input_layer_factory", require=4)
     return obs
 
 
@@ -20,9 +21,10 @@ SPEC = PropSpec(
         "R13a: in hmm, fully_factorized, cp, tucker and tensor_train every read of a per-variable table (input-layer factories, "
         "per-variable kwargs, per-mode sizes) that feeds the construction of the layer over Scope([v]) is made at index v (def-use "
         "resolved; -1 == len(T)-1), or element and id are bound by one aligned enumerate -- the 'each variable using the input layer "
-        "and per-variable arguments given for that variable id' clause."
+        "and per-variable arguments given for that variable id' clause; N1: each input-layer name of name_to_input_layer_factory "
+        "('embedding', 'categorical', 'binomial', 'gaussian') builds the same-named layer class."
     ),
     not_decided="CP / Tucker / TT contraction formulas, HMM joint probabilities, logic-circuit semantics and model counting (numerical / run-time).",
     run=run,
-    floors={"R13a": 7},
+    floors={"R13a": 7, "N1": 4},
 )
